@@ -38,6 +38,7 @@ def run(db, rep, feat, tier):
     for e in (UD, DU):
         rep.anchor(e in db.mir, e)
     r1_r5(db, rep, cache, trans)
+    r7(db, rep, trans)
     r2(db, rep, cache)
     r3(db, rep)
     r4(db, rep, cache, trans, join)
@@ -98,6 +99,43 @@ def r1_r5(db, rep, cache, trans):
                     r5.decide(ok, key, db.where(body, t["l"]),
                               "equality compares %s with %s, expected %s" % (sorted(ka), sorted(kb), want))
     r1.floor(5, "1 kill comparison + 2 in use_def + 2 in def_use")
+    # kill quantifier: a definition dies only if *every* scalar it wrote is overwritten
+    r6 = rep.rule("R6", "K4", "kill filter: a reaching definition is removed only if all scalars it writes are the "
+                  "overwritten scalar (Iterator::all), so a multi-scalar definition stays the last writer of the rest")
+    quant = []
+    for d in bodies_under(db, trans):
+        body = db.mir[d]
+        for i, t in mir_calls(body):
+            f = t.get("f") or ""
+            if f in ("std::iter::Iterator::all", "std::iter::Iterator::any") and "Scalar" in t.get("fg", ""):
+                quant.append((last_seg(f), db.where(body, t["l"])))
+    rep.anchor(len(quant) == 1, "one quantifier over written scalars in the kill filter (found %s)" % quant)
+    r6.decide(quant[0][0] == "all", "trans|kill_quantifier", quant[0][1],
+              "a definition is killed as soon as *any* scalar it writes is overwritten")
+
+
+def r7(db, rep, trans):
+    r = rep.rule("R7", "K12", "the chain builders and the transfer function take no decision on the identity of "
+                 "locations or on the incoming state: the only equalities are on scalars, and the transfer function "
+                 "has no early return (every instruction kills and generates unconditionally)")
+    for root in (UD, DU, trans):
+        bad = []
+        for d in bodies_under(db, root):
+            body = db.mir[d]
+            for i, t in mir_calls(body):
+                f = t.get("f") or ""
+                fg = t.get("fg", "")
+                if f in ("std::cmp::PartialEq::eq", "std::cmp::PartialEq::ne") and (
+                        "ProgramLocation" in fg or "FunctionLocation" in fg or "LocationSet" in fg):
+                    bad.append((db.where(body, t["l"]), fg))
+                if root == trans and last_seg(f) == "contains" and ("LocationSet" in fg or "HashSet" in fg):
+                    bad.append((db.where(body, t["l"]), fg))
+        r.decide(not bad, "%s|only_scalar_equalities" % root, bad[0][0] if bad else db.where(db.mir[root]),
+                 "decision on location identity / incoming state: %s" % (bad[0][1] if bad else ""))
+    hb = db.hir[trans]
+    rets = [n for n in walk(hb["body"]) if n.get("k") == "Ret"]
+    r.decide(not rets, "trans|no_early_return", db.where(hb, rets[0]["l"]) if rets else db.where(hb),
+             "the transfer function returns early on some incoming states")
 
 
 def r2(db, rep, cache):
